@@ -92,3 +92,30 @@ pub fn block_on<F: std::future::Future>(f: F) -> F::Output {
         futures::executor::block_on(f)
     }
 }
+
+/// CPU seconds (user + system) this process has consumed so far (/proc/self/stat, 100 ticks per second)
+pub fn cpu_secs() -> f64 {
+    let s = std::fs::read_to_string("/proc/self/stat").unwrap_or_default();
+    // the fields after the command name (which may contain spaces) start after the last ')'
+    let rest = s.rsplit(')').next().unwrap_or("");
+    let f: Vec<&str> = rest.split_whitespace().collect();
+    let ut: f64 = f.get(11).and_then(|x| x.parse().ok()).unwrap_or(0.0);
+    let st: f64 = f.get(12).and_then(|x| x.parse().ok()).unwrap_or(0.0);
+    (ut + st) / 100.0
+}
+
+/// Watchdog for a worker thread that either finishes or is STUCK (parked on a future nobody will wake): waits for the
+/// message at least `min_secs`; after that it gives up (None) only when the process has been idle - less than 0.05 CPU
+/// seconds in each of two consecutive 3 s windows - so a slow run on a loaded machine is not mistaken for a hang.
+/// A worker that burns CPU forever is cut off after `cap_secs`.
+pub fn recv_unless_idle<T>(rx: &std::sync::mpsc::Receiver<T>, min_secs: u64, cap_secs: u64) -> Option<T> {
+    let t0 = std::time::Instant::now();
+    if let Ok(x) = rx.recv_timeout(std::time::Duration::from_secs(min_secs)) { return Some(x); }
+    let mut idle_windows = 0;
+    loop {
+        let c0 = cpu_secs();
+        if let Ok(x) = rx.recv_timeout(std::time::Duration::from_secs(3)) { return Some(x); }
+        if cpu_secs() - c0 < 0.05 { idle_windows += 1; } else { idle_windows = 0; }
+        if idle_windows >= 2 || t0.elapsed().as_secs() > cap_secs { return None; }
+    }
+}
